@@ -89,7 +89,7 @@ def rule_nm(ctx):
     db = ctx.repo.module('database')
     n_mut = 0
     for mod, fn in ctx.repo.all_functions():
-        if mod is not db or isinstance(fn, ast.Lambda):
+        if mod is not db or isinstance(fn, ast.Lambda) or ctx.repo.is_new_private_helper(fn):
             continue
         qual = ctx.repo.qualname_of(fn)
         for node, recv, what in _mutations(fn):
@@ -135,7 +135,7 @@ def rule_ok(ctx):
     db = ctx.repo.module('database')
     checked = 0
     for mod, fn in ctx.repo.all_functions():
-        if mod is not db or isinstance(fn, ast.Lambda):
+        if mod is not db or isinstance(fn, ast.Lambda) or ctx.repo.is_new_private_helper(fn):
             continue
         qual = ctx.repo.qualname_of(fn)
         optional = {}   # (container src, key) -> node
@@ -337,20 +337,54 @@ def rule_dup(ctx):
     unions = [n for n in A.walk_local(ge) if isinstance(n, ast.Assign) and isinstance(n.value, ast.Dict)
               and sum(1 for k in n.value.keys if k is None) >= 2]
     rep.floor('alias unions', len(unions), 1)
+    g_assigns = [n for n in A.walk_local(ge) if isinstance(n, ast.Assign) and len(n.targets) == 1 and isinstance(n.targets[0], ast.Name)]
+
+    def g_expand(expr, line, depth=5, keep=()):
+        class T(ast.NodeTransformer):
+            def visit_Name(self, nd):
+                if isinstance(nd.ctx, ast.Load) and depth > 0 and nd.id not in keep:
+                    c = [n for n in g_assigns if n.targets[0].id == nd.id and n.lineno < line and not isinstance(n.value, ast.Dict)]
+                    if c:
+                        d = max(c, key=lambda n: n.lineno)
+                        return g_expand(A.clone(d.value), d.lineno, depth - 1, keep)
+                return nd
+        return T().visit(A.clone(expr))
+
+    def sides(e):
+        for x in ast.walk(e):
+            if isinstance(x, ast.Call) and isinstance(x.func, ast.Attribute) and x.func.attr == 'intersection':
+                if A.dotted(x.func.value) == 'set' and len(x.args) == 2:
+                    yield x.args[0], x.args[1]
+                elif len(x.args) == 1:
+                    yield x.func.value, x.args[0]
+            elif isinstance(x, ast.BinOp) and isinstance(x.op, ast.BitAnd):
+                yield x.left, x.right
+            elif isinstance(x, ast.Call) and isinstance(x.func, ast.Attribute) and x.func.attr == 'isdisjoint' and len(x.args) == 1:
+                yield x.func.value, x.args[0]
     for u in unions:
         ok = False
-        for a in A.walk_local(ge):
-            if isinstance(a, ast.Assert) and a.lineno < u.lineno and any(
-                    x is a for x in A.walk_stmts(A.parent(u).body if hasattr(A.parent(u), 'body') else [])):
-                names = [x.id for x in ast.walk(a.test) if isinstance(x, ast.Name)]
-                for nm in names:
-                    for d in flow.assigned_names(ge).get(nm, []):
-                        s = A.src(d)
-                        spread = [A.src(v) for k, v in zip(u.value.keys, u.value.values) if k is None]
-                        if 'intersection' in s and all(sp in s for sp in spread):
-                            ok = True
-                if 'len(' in A.src(a.test) and '== 0' not in A.src(a.test) and 'not ' not in A.src(a.test):
-                    ok = False
+        spread = [v for k, v in zip(u.value.keys, u.value.values) if k is None]
+        spread_names = [set(A.names_in(v)) for v in spread]
+        blk = A.parent(u).body if hasattr(A.parent(u), 'body') else []
+        for a in blk:
+            if not (isinstance(a, ast.Assert) and a.lineno < u.lineno):
+                continue
+            t_, neg_ = A.strip_not(a.test)
+            subject = t_
+            if isinstance(t_, ast.Compare) and len(t_.ops) == 1:
+                rhs = t_.comparators[0]
+                zero = A.int_value(rhs) == 0 or (isinstance(rhs, ast.Call) and A.dotted(rhs.func) == 'set' and not rhs.args)
+                empty = zero and (isinstance(t_.ops[0], ast.Eq) != neg_)
+                subject = t_.left
+            elif isinstance(t_, ast.Call) and isinstance(t_.func, ast.Attribute) and t_.func.attr == 'isdisjoint':
+                empty = not neg_
+            else:
+                empty = neg_
+            e = g_expand(subject, a.lineno, keep=set().union(*spread_names) if spread_names else ())
+            for l_, r_ in sides(e):
+                ln, rn = set(A.names_in(l_)), set(A.names_in(r_))
+                if len(spread_names) >= 2 and ((spread_names[0] & ln and spread_names[1] & rn) or (spread_names[0] & rn and spread_names[1] & ln)):
+                    ok = bool(empty)
         rep.ob('DUP', 'database.Database.get_examples::alias-union-asserts-disjoint-ids', ok, u,
                '' if ok else 'example dicts of an alias are merged without asserting that their ids do not overlap')
 
